@@ -4,7 +4,16 @@ IMPORTS_REL = "From Ergo Require Import Common.Base Rel.Amap Rel.Model Rel.Cases
 IMPORTS_IDS = "From Ergo Require Import Common.Base Ids.Model Ids.Cases.\nLocal Open Scope N_scope."
 
 
+IMPORTS_ILV = "From Ergo Require Import Common.Base Rel.Amap Rel.Model Rel.RaceGen Rel.RaceGenCases.\nLocal Open Scope N_scope."
+
+
 def _eval(c, sub, out, search=False):
+    if sub == "ilv":
+        # every interleaving of a link / monitor request with every way its target goes away (real node, threads parked at
+        # the target manager calls): afterwards no relation names an identifier that is gone
+        c.cases("ilv" + ("-search" if search else ""), out, IMPORTS_ILV, "rcase",
+                corr=[], spec=["spec_ilv_release"], premise=["premise_ilv"])
+        return
     if sub == "ref":
         c.cases("ref" + ("-search" if search else ""), out, IMPORTS_IDS, "refcase",
                 corr=[] if search else ["corr_ref"], spec=["spec_ref"], premise=["premise_ref"])
@@ -40,7 +49,8 @@ def run(c):
         if out:
             _eval(c, sub, out)
         return
-    for sub in ("ref", "hist", "tm", "race"):
+    n["ilv"] = 0
+    for sub in ("ref", "hist", "tm", "race", "ilv"):
         out = c.harness("rel", [sub, "-n", str(n[sub])], timeout=900)
         if out:
             _eval(c, sub, out)
